@@ -135,7 +135,7 @@ STAGES = [dict(name='mod', mode='unit', coq='Check.C18c', profile=('Proofs.Judge
                     'radial dead zone on scaled Pythagorean vectors (tolerance 2^-16); random DeltaLerp sequences of length <= 8 (speeds 0,1,2,4,8; tolerance 2^-18); '
                     'random AccumulateBy sequences with the referenced action present/absent. non-trivial = some output component other than 0 or 1; distinct = distinct case text')]
 
-STAGES.append(dict(name='context', mode='app', coq='Check.C18w', cases=app_cases, nontrivial=nontrivial, shard=25,
+STAGES.append(dict(name='context', mode='app', coq='Check.C18w', profile=('Proofs.JudgeC18AppP', 'JudgeC18AppP.profile_C18b', 'C18_app_judgement_sound / C18_app_judgement_transfer'), cases=app_cases, nontrivial=nontrivial, shard=25,
                    exhaustive={'thorough': False, 'quick': False},
                    rule='the same modifiers bound in a real context at input and action level on keys, mouse buttons, mouse motion and gamepad axes over 6-16 frames with rebuilds, time dilation (relative speed 1/4 .. 2) and pauses; '
                         'every application recorded by the wrapper (value in, value out, action states shown) is judged by the laws'))
